@@ -2,7 +2,7 @@
 plans built from operation lists (TLC histories or random scripts).
 
 Event format (one record per operation, uniformly typed; see spec/collect/Collect.tla `E0`):
-  op      init | declare | env | collect | checkpoint | pause | close
+  op      init | declare | env | collect | checkpoint | configure | pause | close
   s       stream name                       ds   detector ids (message order)        f    frames added per detector
   rep     get_index() answers (per ds)      cap  index passed to collect_asset_docs (-1 = None)
   docs    emitted documents [{k: res|datum, d, i0, i1, s0, s1}]                       err  an exception left the engine
@@ -69,6 +69,17 @@ class StreamDet:
 
     def complete(self):
         return DoneStatus()
+
+    # Configurable (Msg('configure') re-describes the stream the detector feeds)
+    def configure(self, exposure):
+        old, self.exposure = getattr(self, "exposure", 0.1), exposure
+        return ({"exposure": old}, {"exposure": exposure})
+
+    def read_configuration(self):
+        return {f"{self.name}_exposure": {"value": getattr(self, "exposure", 0.1), "timestamp": 0.0}}
+
+    def describe_configuration(self):
+        return {f"{self.name}_exposure": {"source": f"sim://{self.name}/exposure", "dtype": "number", "shape": []}}
 
     # Collectable
     def describe_collect(self):
@@ -225,6 +236,9 @@ def make_plan(sess, ops, kickoff=True):
             elif o["op"] == "checkpoint":
                 sess.note("checkpoint")
                 yield Msg("checkpoint")
+            elif o["op"] == "configure":
+                sess.note("configure", ds=list(o["ds"]))
+                yield Msg("configure", dets[o["ds"][0]], 0.1 * (2 + len(sess.events)))
             elif o["op"] == "pause":
                 sess.note("pause")
                 yield Msg("pause")
